@@ -26,7 +26,7 @@ RULE = (
     "and super()), a shared macro library m0 (module body and macros contain gates; imported without context = cached "
     "default module, with context, via from-import, called with call blocks), shared includes (with and without "
     "context), per-template globals, bodies with async-def, types.coroutine and __await__-object data functions, loops over lists, plain generators and async iterables (loop.index/cycle/changed/last/"
-    "previtem), set inside loops read back through a pass_context function, namespaces, cyclers, joiners, autoescape "
+    "previtem), set inside loops read back through a pass_context function, namespaces (also initialised from a dict global and from a dict exported by the cached library), cyclers, joiners, autoescape "
     "blocks, with blocks, filter blocks, local macros with call blocks; 2-3 tasks over those mains with distinct data. "
     "Per set every release order over the task indices up to length 6 (2 tasks) / 5 (3 tasks) in quick, 8 / 7 in "
     "thorough, is enumerated (orders releasing a task more often than it has gates are skipped) with both drain "
@@ -74,6 +74,12 @@ def _body_src(nodes, d):
             out.append("{% set sv = x ~ 's' %}{{ gate() }}{{ sv }}")
         elif k == "ns":
             out.append("{%% set ns = namespace(v='') %%}{%% for n_ in seq(%d) %%}{%% set ns.v = ns.v ~ x ~ n_ %%}{{ gate() }}{%% endfor %%}{{ ns.v }}" % n[1])
+        elif k == "nsd":
+            # namespace initialised from a dict that outlives the render: 0 = a dict global, 1 = a dict exported by the
+            # cached library module; namespace() must copy it
+            srcd = "GD" if n[1] == 0 else "libd.defaults"
+            pre = "" if n[1] == 0 else "{% import 'm0' as libd %}"
+            out.append(pre + "{%% set nsd = namespace(%s) %%}{{ nsd.k }}{%% set nsd.k = x %%}{%% set nsd.j = x ~ 'j' %%}{{ gate() }}{{ nsd.k }}{{ nsd.j }}" % srcd)
         elif k == "cyc":
             out.append("{% set cy = cycler(x, 'q') %}{{ cy.next() }}{{ gate() }}{{ cy.next() }}{{ cy.current }}")
         elif k == "join":
@@ -120,7 +126,7 @@ def source_of(tdef):
     if tdef.get("ext"):
         s += "{%% extends '%s' %%}" % tdef["ext"]
     if tdef.get("lib"):
-        s += "{% set lv = 'L' ~ tg %}"
+        s += "{% set lv = 'L' ~ tg %}{% set defaults = {'k': 'd', 'n': 1} %}"
         s += "{%% macro mm(a) %%}[{{ a }}{{ gate() }}%s{{ a }}{{ tg }}]{%% endmacro %%}" % _body_src(tdef.get("mac") or [], 0)
         s += "{% macro wrap(a) %}({{ a }}{{ gate() }}{{ caller() }}{{ a }}){% endmacro %}"
         # gates of the library's module body are tagged: the harness sees two tasks building the module at once
@@ -219,7 +225,7 @@ class _Sched:
         def pc(ctx, name):
             return "%s" % (ctx.resolve(name),)
 
-        return dict(gate=gate, aseq=aseq, seq=seq, pc=pc, rows=rows, tc=tc, aw=Aw)
+        return dict(gate=gate, aseq=aseq, seq=seq, pc=pc, rows=rows, tc=tc, aw=Aw, GD={"k": "g", "n": 2})
 
     async def settle(self):
         import asyncio
@@ -354,7 +360,7 @@ def _reach(case, name, acc):
         for n in nodes:
             if n[0] == "inc":
                 _reach(case, n[1], acc)
-            elif n[0] == "imp":
+            elif n[0] == "imp" or (n[0] == "nsd" and n[1] == 1):
                 _reach(case, "m0", acc)
             for part in n[1:]:
                 if isinstance(part, list) and part and isinstance(part[0], list):
@@ -425,7 +431,7 @@ def _strategy(maxdepth, with_order):
                 kinds += ["i", "lset", "lset"]
             if c["super"]:
                 kinds += ["sup", "sup"]
-            kinds += ["set", "ns", "cyc", "join"]
+            kinds += ["set", "ns", "cyc", "join", "nsd"]
             if depth < maxdepth:
                 kinds += ["for", "for", "auto", "auto", "with", "fil", "if"]
                 if c["lib"]:
@@ -441,6 +447,8 @@ def _strategy(maxdepth, with_order):
                 return ["t", draw(st.sampled_from(["T", "u", "<b>"]))]
             if k in ("x", "g", "h", "tg", "i", "lset", "set", "cyc", "sup", "tc", "aw"):
                 return [k]
+            if k == "nsd":
+                return ["nsd", draw(st.sampled_from([0, 1])) if c["lib"] else 0]
             if k in ("ns", "join"):
                 return [k, draw(st.sampled_from([2, 1, 3]))]
             if k == "for":
